@@ -16,6 +16,7 @@ import (
 	"encoding/hex"
 	"encoding/json"
 	"fmt"
+	"io"
 	"net"
 	"os"
 	"sort"
@@ -26,6 +27,7 @@ import (
 	"testing"
 	"time"
 
+	"github.com/sirupsen/logrus"
 	"github.com/wmnsk/go-pfcp/ie"
 	"github.com/wmnsk/go-pfcp/message"
 
@@ -54,6 +56,7 @@ type vfOp struct {
 	Qfi    int   `json:"qfi"`    // QER: QFI (0: IE absent)
 	Perio  bool  `json:"perio"`  // URR: periodic reporting trigger
 	Period int   `json:"period"` // URR: measurement period in seconds
+	Sdf    string `json:"sdf"`   // PDR: flow description of an SDF filter in the PDI ("" = none)
 }
 
 type vfRep struct {
@@ -99,6 +102,16 @@ type vfEvent struct {
 	MaxRt   int     `json:"maxrt"`  // init only
 	TxSeq0  string  `json:"txseq0"` // init only
 	Tag     string  `json:"tag"`    // free text from the generator (history classes)
+	Mut     vfMut   `json:"mut"`    // t = "mut": the valid message described by Base is built, mutated and sent
+	Base    string  `json:"mbase"`  // t = "mut": type of the valid message (hb assoc est mod del rptrsp)
+}
+
+// vfMut is one structure-aware mutation of a valid PFCP message
+type vfMut struct {
+	Op  string `json:"op"`  // trunc hdrlen iel iet drop dup byte seid mt ver ieb rand none
+	K   int    `json:"k"`   // index of the IE (pre-order, nested IEs included) / byte offset / length
+	V   int    `json:"v"`   // value
+	S   string `json:"s"`   // seid: decimal 64-bit value
 }
 
 type vfScript struct {
@@ -653,6 +666,9 @@ func vfOpIE(o vfOp) *ie.IE {
 		return ie.NewQueryURR(ie.NewURRID(uint32(id)))
 	case "create/pdr":
 		pdi := []*ie.IE{ie.NewSourceInterface(ie.SrcInterfaceCore)}
+		if o.Sdf != "" {
+			pdi = append(pdi, ie.NewSDFFilter(o.Sdf, "", "", "", 0))
+		}
 		if o.UEIP {
 			pdi = append(pdi, ie.NewUEIPAddress(2, fmt.Sprintf("10.60.%d.%d", (id>>8)&0xff, id&0xff), "", 0, 0))
 		}
@@ -737,6 +753,215 @@ func (x *vfExec) build(e *vfEvent) ([]byte, error) {
 		return nil, err
 	}
 	return b, nil
+}
+
+// ---------------------------------------------------------------- structure-aware mutation (C07)
+
+var vfGrouped = map[int]bool{1: true, 2: true, 3: true, 4: true, 5: true, 6: true, 7: true, 8: true, 9: true, 10: true, 11: true, 12: true,
+	13: true, 14: true, 15: true, 16: true, 17: true, 18: true, 77: true, 78: true, 79: true, 80: true, 83: true, 85: true, 86: true, 87: true}
+
+type vfIEPos struct{ off, hdr, plen, depth int }
+
+// vfWalkIEs lists the IEs of a message body in pre-order (nested IEs of grouped IEs included)
+func vfWalkIEs(b []byte, base, depth int, out *[]vfIEPos) {
+	off := 0
+	for off+4 <= len(b) {
+		t := int(b[off])<<8 | int(b[off+1])
+		l := int(b[off+2])<<8 | int(b[off+3])
+		if off+4+l > len(b) {
+			return
+		}
+		*out = append(*out, vfIEPos{off: base + off, hdr: 4, plen: l, depth: depth})
+		if vfGrouped[t] && depth < 4 {
+			vfWalkIEs(b[off+4:off+4+l], base+off+4, depth+1, out)
+		}
+		off += 4 + l
+	}
+}
+
+func vfMutate(b []byte, m vfMut) []byte {
+	hl := 8
+	if len(b) > 0 && b[0]&1 == 1 {
+		hl = 16
+	}
+	if len(b) < hl {
+		return b
+	}
+	var ies []vfIEPos
+	vfWalkIEs(b[hl:], hl, 0, &ies)
+	pick := func() (vfIEPos, bool) {
+		if len(ies) == 0 {
+			return vfIEPos{}, false
+		}
+		k := m.K % len(ies)
+		if k < 0 {
+			k += len(ies)
+		}
+		return ies[k], true
+	}
+	// fixLen re-computes the header length and the lengths of the enclosing grouped IEs after a splice (delta bytes at off)
+	fixLen := func(nb []byte, at, delta int) {
+		tl := int(nb[2])<<8 | int(nb[3])
+		tl += delta
+		nb[2], nb[3] = byte(tl>>8), byte(tl)
+		for _, e := range ies {
+			if e.off < at && at < e.off+4+e.plen+1 && e.off+4 <= at {
+				l := e.plen + delta
+				if e.off+4 <= len(nb) {
+					nb[e.off+2], nb[e.off+3] = byte(l>>8), byte(l)
+				}
+			}
+		}
+	}
+	nb := append([]byte{}, b...)
+	switch m.Op {
+	case "none":
+	case "trunc":
+		n := m.K
+		if e, ok := pick(); ok && m.V == 1 {
+			n = e.off + e.hdr/2 // inside an IE header
+		} else if ok && m.V == 2 {
+			n = e.off + e.hdr + e.plen/2 // inside an IE payload
+		} else if ok && m.V == 3 {
+			n = e.off // at an IE boundary
+		}
+		if n < 1 {
+			n = 1
+		}
+		if n < len(nb) {
+			nb = nb[:n]
+		}
+	case "hdrlen":
+		nb[2], nb[3] = byte(m.V>>8), byte(m.V)
+	case "iel":
+		if e, ok := pick(); ok {
+			l := m.V
+			switch m.V {
+			case -1:
+				l = e.plen - 1
+			case -2:
+				l = e.plen + 1
+			case -3:
+				l = 0xffff
+			case -4:
+				l = 0
+			}
+			if l < 0 {
+				l = 0
+			}
+			nb[e.off+2], nb[e.off+3] = byte(l>>8), byte(l)
+		}
+	case "iet":
+		if e, ok := pick(); ok {
+			nb[e.off], nb[e.off+1] = byte(m.V>>8), byte(m.V)
+		}
+	case "drop":
+		if e, ok := pick(); ok {
+			nb = append(append([]byte{}, b[:e.off]...), b[e.off+4+e.plen:]...)
+			fixLen(nb, e.off, -(4 + e.plen))
+		}
+	case "dup":
+		if e, ok := pick(); ok {
+			x := append([]byte{}, b[e.off:e.off+4+e.plen]...)
+			nb = append(append(append([]byte{}, b[:e.off]...), x...), b[e.off:]...)
+			fixLen(nb, e.off, 4+e.plen)
+		}
+	case "ieb": // a byte of an IE payload
+		if e, ok := pick(); ok && e.plen > 0 {
+			o := e.off + 4 + (m.V>>8)%e.plen
+			nb[o] = byte(m.V)
+		}
+	case "ieb0": // the first payload octet of an IE (where flag octets live)
+		if e, ok := pick(); ok && e.plen > 0 {
+			nb[e.off+4] = byte(m.V)
+		}
+	case "ieb23": // octets 3-4 of an IE payload (where inner length fields live)
+		if e, ok := pick(); ok && e.plen >= 4 {
+			nb[e.off+4+2], nb[e.off+4+3] = byte(m.V>>8), byte(m.V)
+		}
+	case "byte":
+		if len(nb) > 0 {
+			nb[((m.K%len(nb))+len(nb))%len(nb)] = byte(m.V)
+		}
+	case "seid":
+		if hl == 16 {
+			v, _ := strconv.ParseUint(m.S, 10, 64)
+			for i := 0; i < 8; i++ {
+				nb[4+i] = byte(v >> (8 * (7 - i)))
+			}
+		}
+	case "mt":
+		nb[1] = byte(m.V)
+	case "ver":
+		nb[0] = (nb[0] & 0x1f) | byte(m.V<<5)
+	case "rand":
+		n := m.K
+		if n < 1 {
+			n = 1
+		}
+		nb = make([]byte, n)
+		x := uint32(m.V)*2654435761 + 1
+		for i := range nb {
+			x = x*1664525 + 1013904223
+			nb[i] = byte(x >> 24)
+		}
+	}
+	if len(nb) == 0 {
+		nb = []byte{0}
+	}
+	return nb
+}
+
+// buildMut builds the valid message of a "mut" event and mutates it; the event is recorded as a raw datagram
+func (x *vfExec) buildMut(e *vfEvent) ([]byte, error) {
+	base := *e
+	base.T = e.Base
+	b, err := x.build(&base)
+	if err != nil {
+		return nil, err
+	}
+	nb := vfMutate(b, e.Mut)
+	e.Raw = hex.EncodeToString(nb)
+	// whom may the datagram concern? the header SEID if it has one, else everybody ("all")
+	e.SEID = "all"
+	if len(nb) >= 16 && nb[0]&1 == 1 {
+		var sd uint64
+		for _, c := range nb[4:12] {
+			sd = sd<<8 | uint64(c)
+		}
+		e.SEID = strconv.FormatUint(sd, 10)
+	}
+	// which node may it concern? (the node id IE of a message that still parses)
+	e.Node = ""
+	if m, err := message.Parse(nb); err == nil {
+		var nid *ie.IE
+		switch r := m.(type) {
+		case *message.AssociationSetupRequest:
+			nid = r.NodeID
+		case *message.AssociationUpdateRequest:
+			nid = r.NodeID
+		case *message.AssociationReleaseRequest:
+			nid = r.NodeID
+		case *message.SessionEstablishmentRequest:
+			nid = r.NodeID
+		case *message.SessionModificationRequest:
+			nid = r.NodeID
+		}
+		if nid != nil {
+			if v, err := nid.NodeID(); err == nil {
+				e.Node = v
+				for k, ip := range x.net.nodes {
+					if ip == v {
+						e.Node = k
+					}
+				}
+			} else {
+				e.Node = "?"
+			}
+		}
+	}
+	e.T = "raw"
+	return nb, nil
 }
 
 // ---------------------------------------------------------------- abstraction of output datagrams
@@ -906,6 +1131,29 @@ type vfRun struct {
 	srrs  []vfOut  // Session Report Requests seen so far, in observation order
 }
 
+// vfFatalHook records the message of a Fatal log entry (the event loop logs the recovered panic there)
+type vfFatalHook struct{ x *vfExec }
+
+func (h vfFatalHook) Levels() []logrus.Level { return []logrus.Level{logrus.FatalLevel} }
+func (h vfFatalHook) Fire(e *logrus.Entry) error {
+	m := e.Message
+	if i := strings.Index(m, "\n"); i > 0 {
+		// keep the panic value and the innermost frames of go-upf / go-pfcp
+		rest := m[i:]
+		m = m[:i]
+		for _, ln := range strings.Split(rest, "\n") {
+			if strings.Contains(ln, "go-pfcp") || strings.Contains(ln, "go-upf/internal") {
+				m += " | " + strings.TrimSpace(ln)
+				if len(m) > 500 {
+					break
+				}
+			}
+		}
+	}
+	h.x.noteFatal(m)
+	return nil
+}
+
 func (x *vfExec) noteFatal(msg string) {
 	x.fmu.Lock()
 	if x.fatal == "" {
@@ -1066,8 +1314,14 @@ func (x *vfExec) step(r *vfRun, e *vfEvent) (vfLine, error) {
 			}
 		}
 		r.srv.NotifyTransTimeout(tt, key)
-	case "raw":
-		b, err := hex.DecodeString(e.Raw)
+	case "mut", "raw":
+		var b []byte
+		var err error
+		if e.T == "mut" {
+			b, err = x.buildMut(e)
+		} else {
+			b, err = hex.DecodeString(e.Raw)
+		}
 		if err != nil {
 			return ln, err
 		}
@@ -1129,9 +1383,11 @@ func TestVerifL1(t *testing.T) {
 	if k == 0 {
 		k = 77
 	}
-	logger.Log.SetLevel(6 - 6) // panic level only: keep the run quiet
+	logger.Log.SetLevel(logrus.FatalLevel) // keep the run quiet, but let the fatal hook see recovered panics
+	logger.Log.SetOutput(io.Discard)
 	if os.Getenv("VERIF_LOG") != "" {
 		logger.Log.SetLevel(6)
+		logger.Log.SetOutput(os.Stderr)
 	}
 	nw, err := vfNewNet(k)
 	if err != nil {
@@ -1142,6 +1398,7 @@ func TestVerifL1(t *testing.T) {
 	x.gate = &vfGate{net: nw}
 	x.gate.cond = sync.NewCond(&x.gate.mu)
 	VerifIdle = x.gate.idle
+	logger.Log.AddHook(vfFatalHook{x})
 	logger.Log.ExitFunc = func(code int) { x.noteFatal(fmt.Sprintf("exit(%d) via logger (recovered panic in the event loop)", code)) }
 
 	fi, err := os.Open(in)
